@@ -61,8 +61,10 @@ def _loop_specs(u):
     return {"%s:%s#%d" % k: v for k, v in u.loops.items()}
 
 
-def run_conc(u, params, given=None, rng=None, timeout=60):
-    """one concrete execution against the really imported module"""
+def run_conc(u, params, given=None, rng=None, timeout=None):
+    """one concrete execution against the really imported module (60 s unless the unit function declares
+    `conc_timeout`, e.g. a whole javac/java batch)"""
+    timeout = timeout or getattr(u.fn, "conc_timeout", 60)
     from . import core, shadow
     from .unit import UConc
     from .core import PathEnd, Unsupported
